@@ -818,27 +818,52 @@ def main(argv) -> int:
         "cpp": chk.pick(480.0, 600.0),
     }
     n_workers = int(os.environ.get("VERIF_C09_WORKERS", "0")) or 6
-    specs: List[Tuple] = [("mmg", i) for i in range(n_models)]
-    specs += [("corpus", name, text) for name, text in corpus.small_common()]
+    # generated and corpus models interleaved, so that a run cut short has seen both
+    generated: List[Tuple] = [("mmg", i) for i in range(n_models)]
+    fixtures: List[Tuple] = [("corpus", name, text) for name, text in corpus.small_common()]
+    specs: List[Tuple] = []
+    while generated or fixtures:
+        if generated:
+            specs.append(generated.pop(0))
+        if fixtures:
+            specs.append(fixtures.pop(0))
     pool = concurrent.futures.ProcessPoolExecutor(max_workers=n_workers)
     try:
         jobs = [
             pool.submit(worker, (list(argv), spec, n_instances, n_mutants, timeouts))
             for spec in specs
         ]
-        for job in jobs:
-            # A time-out is never a violation: models not finished within 3x the budget
-            # are dropped (the legs themselves are bounded by ``timeouts``).
-            remaining = max(budget * 3 - chk.elapsed(), 1.0)
-            try:
-                chk.merge(job.result(timeout=remaining))
-            except concurrent.futures.TimeoutError:
-                chk.count("models_skipped_for_budget")
+        # A time-out is never a violation.  Models are collected as they finish; after
+        # 3x the budget the rest is dropped, unless the deciding counter is still below
+        # its minimum (a heavily loaded machine): then the wait goes on up to 10x.
+        pending = set(jobs)
+        while pending:
+            done, pending = concurrent.futures.wait(
+                pending, timeout=5.0, return_when=concurrent.futures.FIRST_COMPLETED
+            )
+            for job in done:
+                try:
+                    chk.merge(job.result())
+                except Exception as err:
+                    chk.harness_error(f"worker failed: {err!r}")
+            enough = (
+                max(chk.counters.get(f"{leg}_cases_compared", 0) for leg in LEGS) >= 100
+                and len(chk.distinct) >= 2
+            )
+            if chk.elapsed() > budget * (3 if enough else 10):
+                break
+        if pending:
+            chk.count("models_skipped_for_budget", len(pending))
+            for job in pending:
                 job.cancel()
-            except Exception as err:
-                chk.harness_error(f"worker failed: {err!r}")
     finally:
         pool.shutdown(wait=False, cancel_futures=True)
+        # do not let dropped models keep the interpreter alive at exit
+        for proc in list(getattr(pool, "_processes", {}).values()):
+            try:
+                proc.terminate()
+            except Exception:
+                pass
     best = max([chk.counters.get(f"{leg}_cases_compared", 0) for leg in LEGS] + [0])
     chk.counters["best_leg_cases_compared"] = best
     chk.require_min("best_leg_cases_compared", 100)
